@@ -523,7 +523,8 @@ pub fn with_ledger<R>(
         map.insert(PathBuf::from("/main.ledger"), text.as_bytes().to_vec());
         let loader = load::Loader::new(PathBuf::from("/main.ledger"), load::FakeFileSystem::from(map))
             .with_error_renderer(annotate_snippets::Renderer::plain());
-        let opts = report::ProcessOptions { price_db_path: db.map(|p| p.to_path_buf()) };
+        // a struct-update literal: a field added to ProcessOptions must not stop the harness from building
+        let opts = report::ProcessOptions { price_db_path: db.map(|p| p.to_path_buf()), ..Default::default() };
         let out = match report::process(&mut ctx, loader, &opts) {
             Ok(mut ledger) => Ok(f(&ctx, &mut ledger)),
             Err(e) => Err(format!("{:?}", e).chars().take(300).collect::<String>()),
